@@ -60,7 +60,13 @@ FactDiff(a, b) ==
   LET keys == {"bytes", "syms", "psyms", "proxied", "sx", "ann", "fn", "ent", "cfg", "fns"}
   IN  {<<k, a[k] \ b[k], b[k] \ a[k]>> : k \in {x \in keys : a[x] # b[x]}}
 C09_SameOutcome(t) == (t.exc = "") = (t.exc2 = "")
-C09_BatchEqSeq(X) == AllFacts(X) = AllFacts(Seq2(X))
+\* The CFG is compared only where it has a defined meaning (the edited listing is
+\* well formed: no instruction falls into data or off the end of its section).
+C09_BatchEqSeq(X, K) ==
+  LET a == AllFacts(X)
+      b == AllFacts(Seq2(X))
+  IN  /\ \A k \in {"bytes", "syms", "psyms", "proxied", "sx", "ann", "fn", "ent", "fns"} : a[k] = b[k]
+      /\ K.dom => a.cfg = b.cfg
 \* A batch/sequential difference is excused only if it is confined to CFG edges
 \* and every differing edge is explained by an open CFG finding (the two runs
 \* hit, or avoid, the same defect at different moments).
